@@ -52,6 +52,11 @@ def requests(tier, rng):
                 ("k_pack_w1", k, "poly::%s::w1_pack" % lv, 0, m - 1)]:
                 v = [rpoly(rng, lo, hi) for _ in range(n)]
                 add("polyvec::%s::%s %s" % (lv, fn, V(v)), ["%s %s" % (pfn, fmt(p)) for p in v], fn)
+                # boundary-valued rows: every coefficient is one of 0, +-1, the ends of the domain, +-q, q-1 (where allowed)
+                sp = [x for x in (0, -1, 1, lo, hi, lo + 1, hi - 1, Q - 1, -Q + 1, Q, -Q, (Q - 1) // 2, -(Q - 1) // 2) if lo <= x <= hi]
+                v = [[sp[(j + 3 * i) % len(sp)] for j in range(256)] for i in range(n)]
+                v[rng.randrange(n)] = [0] * 256
+                add("polyvec::%s::%s %s" % (lv, fn, V(v)), ["%s %s" % (pfn, fmt(p)) for p in v], fn)
             for (fn, n, pfn, lo, hi) in [("l_add", l, "poly::add_ip", -2**29, 2**29), ("k_add", k, "poly::add_ip", -2**29, 2**29),
                                           ("k_sub", k, "poly::sub_ip", -2**29, 2**29)]:
                 w = [rpoly(rng, lo, hi) for _ in range(n)]; v = [rpoly(rng, lo, hi) for _ in range(n)]
